@@ -226,3 +226,71 @@ def _hybrid_real_gen(rng):
 
 native("ghedesigner.ground_loads:HybridLoad.find_peak_durations", _hybrid_real_check, _hybrid_real_gen, None,
        bound="real HybridLoad objects: 4 profile shapes x 3 magnitudes x spikes x 3 pipe types x soil/grout conductivities; peaks, two-day windows, durations in (0,48], duration definition recomputed independently")
+
+
+# ---- real GHE objects: history independence of simulate (C13) and the corollaries of the superposition formula (C09) -----
+def _make_ghe(a, scale=None, ugt=None):
+    from ghedesigner.enums import FlowConfigType, TimestepType
+    from ghedesigner.search_routines import Bisection1D
+
+    b = dict(a)
+    if scale is not None:
+        b["scale"] = scale
+    if ugt is not None:
+        b["ugt"] = ugt
+    g = build_manager({**b, "length": 12.0})
+    d = g._design
+    n = a.get("n", 4)
+    coords = [(float(i % 2) * 6.0, float(i // 2) * 6.0) for i in range(n)]
+    s = Bisection1D([coords], ["f"], a.get("flow", 0.3), d.borehole, d.bhe_type, d.fluid, d.pipe, d.grout, d.soil, d.sim_params,
+                    d.hourly_extraction_ground_loads, method=TimestepType.HYBRID, flow_type=FlowConfigType.BOREHOLE, search=False)
+    s.initialize_ghe(coords, a.get("H", 100.0))
+    return s.ghe
+
+
+def _sim_real_check(a):
+    from ghedesigner.enums import TimestepType
+
+    HY, HR = TimestepType.HYBRID, TimestepType.HOURLY
+    ref = _make_ghe(a)
+    hy_ref = ref.simulate(method=HY)
+    hp_ref = list(ref.hp_eft)
+    # C13: other simulations (other method, other height) before do not change the result
+    g2 = _make_ghe(a)
+    if a.get("hourly", True):
+        g2.simulate(method=HR)
+    g2.bhe.b.H = 77.0
+    g2.simulate(method=HY)
+    g2.bhe.b.H = a.get("H", 100.0)
+    if g2.simulate(method=HY) != hy_ref or list(g2.hp_eft) != hp_ref:
+        return False, {"why": "hybrid result depends on earlier simulations on the same object"}
+    if a.get("hourly", True):
+        fresh = _make_ghe(a)
+        hr_ref = fresh.simulate(method=HR)
+        g3 = _make_ghe(a)
+        g3.simulate(method=HY)
+        try:
+            got = g3.simulate(method=HR)
+        except Exception as e:
+            return False, {"why": f"hourly after hybrid raised {type(e).__name__}: {e}", "signature": "hourly-after-hybrid"}
+        if got != hr_ref:
+            return False, {"why": "hourly result depends on an earlier hybrid simulation", "got": got, "want": hr_ref}
+    # C09 corollaries
+    z = _make_ghe(a, scale=0.0)
+    z.simulate(method=HY)
+    if any(v != z.bhe.soil.ugt for v in z.hp_eft):
+        return False, {"why": "zero load does not return exactly the ground temperature"}
+    sh = _make_ghe(a, ugt=a.get("ugt", 18.3) + 3.0)
+    sh.simulate(method=HY)
+    if max(abs((x - y) - 3.0) for x, y in zip(sh.hp_eft, hp_ref)) > 1e-9:
+        return False, {"why": "shifting the ground temperature does not shift every result equally"}
+    return True, {}
+
+
+def _sim_real_gen(rng):
+    return {"kind": rng.choice(["heating", "cooling", "balanced"]), "scale": rng.choice([5.0e3, 2.0e4]), "months": rng.choice([12, 18, 24]), "n": rng.choice([1, 4]),
+            "pipe": rng.choice(["single", "double_parallel", "coaxial"]), "hourly": rng.random() < 0.4, "H": rng.choice([80.0, 100.0, 130.0])}
+
+
+native(f"{G}:GHE.simulate", _sim_real_check, _sim_real_gen, None,
+       bound="real GHE objects (1 or 4 boreholes, 3 pipe types, 12/18/24 months): hybrid/hourly results independent of earlier simulate calls; zero load -> ground temperature exactly; ground temperature shift")
